@@ -22,6 +22,9 @@ let intern tab rev s =
   | Some n -> n
   | None -> let n = Hashtbl.length tab in Hashtbl.add tab s n; Hashtbl.add rev n s; n
 let () = ignore (intern symtab symrev "unquote"); ignore (intern symtab symrev "unquote-splicing")
+(* the head symbols of MacroGen's fragment, in the order of its sym_* constants (2 ..) *)
+let () = List.iter (fun n -> ignore (intern symtab symrev n))
+    ["begin"; "let"; "letseq"; "newScope"; "for"; "break"; "continue"; "cond"; "def"; "set"]
 let sym s = z_of_int (intern symtab symrev s)
 let symname z = try Hashtbl.find symrev (int_of_z z) with Not_found -> "?" ^ string_of_z z
 let str s = z_of_int (intern strtab strrev s)
@@ -113,6 +116,23 @@ let mk_rho (bs : (value * value option) list) : value -> value option =
       | (f, v) :: r -> if value_eqb f e then v else go r in
     go bs
 
+(* ---- stream gen: the projected bytecode of a function body (MacroGen.gen_fn) *)
+let other_specials = ["fn"; "defn"; "quote"; "and"; "or"; "assert"; "defmac"; "macexpand"; "syntaxQuote";
+                      "include"; "package"; "return"; "mdef"; "_ls"; "infix"; "eval"]
+let show_pinstr = function
+  | PAdd -> "A" | PRemove -> "R" | PLoop -> "L" | PLoopEnd -> "E"
+  | PBreak k -> "B" ^ string_of_int (int_of_nat k)
+  | PContinue k -> "C" ^ string_of_int (int_of_nat k)
+  | PTail (p, n) -> "T" ^ string_of_int (int_of_nat p) ^ "," ^ string_of_int (int_of_nat n)
+  | PCall (s, n) -> "K" ^ symname s ^ "," ^ string_of_int (int_of_nat n)
+let parse_gmacro (s : string) =
+  match split_on " := " s with
+  | [hd; body] ->
+    (match split_sp hd with
+     | name :: params -> (sym name, (List.map sym params, reify (tmpl_of_string body)))
+     | [] -> failwith "gen: macro without a name")
+  | _ -> failwith ("gen: bad macro " ^ s)
+
 (* flags: a splice of two or more elements standing directly in a hash slot *)
 let long_hash_splice rho a = if hshort rho a then "" else "hash-long-splice"
 
@@ -157,6 +177,18 @@ let () =
            else if is_splice a then "-"
            else (match subst rho a with Ok x -> show x | Err -> "ERR") in
          Printf.printf "%s\tE=%s H=%s\tE=%s H=%s\t%s\n" id model model spec spec (long_hash_splice rho a)
+       | "gen" :: _src :: fname :: nargs :: macros :: body :: _ ->
+         let ms = List.map parse_gmacro (split_on " ;; " macros) in
+         let body = List.map value_of_string (split_on " ;; " body) in
+         let specials = List.map sym other_specials in
+         let special s = List.mem s specials in
+         (match gen_fn (nat_of_int 300) ms special (sym fname) (nat_of_int (int_of_string nargs)) body with
+          | Some code ->
+            (* the function's own scope (AddFuncScope at entry) is removed after the body *)
+            let m = String.concat " " (List.map show_pinstr code @ ["R"]) ^ " H=same" in
+            let ok = (match chk (O, []) code with Some (O, []) -> true | _ -> false) in
+            Printf.printf "%s\t%s\t%s\t\n" id m (if ok then m else "SCOPES-INEXACT")
+          | None -> Printf.printf "%s\tERR\tERR\t\n" id)
        | ("call" | "hist") :: e :: _ ->
          Printf.printf "%s\t%s\t%s\t\n" id e e
        | _ -> failwith ("bad case: " ^ body))
